@@ -409,7 +409,16 @@ struct Mixed {
             if (MX("Vattach", vg == FAIL))
                 return true;
             if (k == "vgadd") {
-                MX("Vaddtagref", Vaddtagref(vg, (int32)htag(o.arg(1)), (int32)href(o.arg(2))) == FAIL);
+                int32 n0 = Vntagrefs(vg);
+                if (o.arg(3) > 0 && n0 > 0) {
+                    // take a member out instead: the one stored last (1) or first (2), and nothing else in this attachment
+                    int32 mt = 0, mr = 0;
+                    if (!MX("Vgettagref", Vgettagref(vg, o.arg(3) == 1 ? n0 - 1 : 0, &mt, &mr) == FAIL))
+                        MX("Vdeletetagref", Vdeletetagref(vg, mt, mr) == FAIL);
+                    ctx.probe("vg-member-deleted");
+                }
+                else
+                    MX("Vaddtagref", Vaddtagref(vg, (int32)htag(o.arg(1)), (int32)href(o.arg(2))) == FAIL);
                 MX("Vdetach", Vdetach(vg) == FAIL);
                 return true;
             }
@@ -817,7 +826,7 @@ struct MixedGen {
                     return mkop(0, "vsclass", {(int64_t)r.below(6), (int64_t)r.below(20)});
                 if (k == 2)
                     return mkop(0, "vsappend", {(int64_t)r.below(6), 1 + r.sizeish(30), 0, ds});
-                return mkop(0, "vgadd", {(int64_t)r.below(6), (int64_t)r.below(3), (int64_t)r.below(8)});
+                return mkop(0, "vgadd", {(int64_t)r.below(6), (int64_t)r.below(3), (int64_t)r.below(8), (int64_t)r.below(3)});
             }
             case 2: { // SD
                 int k = fresh ? 0 : (int)r.below(3);
